@@ -48,7 +48,16 @@ Definition key_corr (text : str) (parsed : option (list str)) : bool :=
   | POk p => match parsed with Some q => list_eqb str_eqb p q | None => false end
   end.
 
+(* parseUnquotedString reports "unquoted strings cannot begin with ...@" (import spread syntax): imports are
+   outside this model, such texts are not compared *)
+Definition starts_spread_import (l : str) : bool :=
+  match snd (skip_space l false) with
+  | a :: b :: c :: d :: _ => (a =? cDOT) && (b =? cDOT) && (c =? cDOT) && (d =? cAT)
+  | _ => false
+  end.
+
 Definition val_corr (text : str) (parsed : ival) (isnum : bool) : bool :=
+  if starts_spread_import text then true else
   match parse_value (fun _ => isnum) text with
   | PUns => true
   | PErr => ival_eqb parsed IErr
